@@ -198,6 +198,14 @@ def Spec.ok0 : Spec → Prop
   | .attr a rest => a.ok ∧ rest.ok0
   | .group n body rest => goodName n ∧ body.ok0 ∧ rest.ok0
 
+/-- no variable declares an attribute under one of pydap's own keys (`reservedAttrNames`) -/
+def Spec.noReserved : Spec → Prop
+  | .nil => True
+  | .dim _ _ rest => rest.noReserved
+  | .var v rest => (∀ a ∈ v.attrs, a.name ∉ reservedAttrNames) ∧ rest.noReserved
+  | .attr _ rest => rest.noReserved
+  | .group _ body rest => body.noReserved ∧ rest.noReserved
+
 /-- local well-formedness of every declaration (no variable declares an attribute named `Maps` or `path`) -/
 def Spec.ok : Spec → Prop
   | .nil => True
